@@ -46,10 +46,10 @@ def fec_text(ctx):
     S("functional cast SystemEventTriggerIndex(i)", r"(?<![\w:])SystemEventTriggerIndex\(i\)", "(int)(i)", 1)
     S("index type -> int", r"\bconst SystemEventTriggerIndex e\b", "const int e", 1)
     S("scope-flatten Event::", r"\bEvent::", "", 4)
-    S("container->contracted stub: Vector[e]", r"\b(eLow|eHigh)\[e\]", r"vec_get(\1, e)", 4)
-    S("member array + method call -> stub + function", r"\beventTriggerInfo\[e\]\.(calcTransitionMask|getRequiredLocalizationTimeWindow)\(\)", r"\1(eti_at(self, e))", 2)
-    S("member array + method call -> stub + function", r"\beventTriggerInfo\[e\]\.calcTransitionToReport\(transitionSeen\)", "calcTransitionToReport(eti_at(self, e), transitionSeen)", 1)
-    S("symbolic product -> unconstrained value (over-approximation)", r"\baccuracyInUse\*timeScaleInUse\*(getRequiredLocalizationTimeWindow\(eti_at\(self, e\)\))",
+    S("container->contracted stub: Vector[e]", r"\b(eLow|eHigh)\[(\w+)\]", r"vec_get(\1, \2)", 4)
+    S("member array + method call -> stub + function", r"\beventTriggerInfo\[(\w+)\]\.(calcTransitionMask|getRequiredLocalizationTimeWindow)\(\)", r"\2(eti_at(self, \1))", 2)   # index kept as written (a wrong index must reach the verifier)
+    S("member array + method call -> stub + function", r"\beventTriggerInfo\[(\w+)\]\.calcTransitionToReport\(transitionSeen\)", r"calcTransitionToReport(eti_at(self, \1), transitionSeen)", 1)
+    S("symbolic product -> unconstrained value (over-approximation)", r"\baccuracyInUse\*timeScaleInUse\*(getRequiredLocalizationTimeWindow\(eti_at\(self, \w+\)\))",
       r"vf_mul3(self->accuracyInUse, self->timeScaleInUse, \1)", 1)
     S("std::max/min", r"\bstd::(max|min)\(", r"vf_\1(", 3)
     S("container->stub: push_back", r"\bcandidates\.push_back\(", "idx_push(candidates, ", 1)
